@@ -413,6 +413,11 @@ func TruncFunc(spec1, spec2 Spec) func(string) string {
 		if nextSep == -1 {
 			return comp
 		}
-		return comp[:pos+nextSep]
+		comp = comp[:pos+nextSep]
+		// trim trailing empty fields, like Spec.Key
+		for strings.HasSuffix(comp, Sep) {
+			comp = comp[:len(comp)-sepLen]
+		}
+		return comp
 	}
 }
